@@ -84,7 +84,7 @@ def outsidePyPath (c : String) : String := joinWith "." (dropLast' (splitDot c))
 /-- the package header of a placeholder stub -/
 def outsideHeader (safe : Bool) (c : String) : String :=
   (if outsidePyPath c != convertName (outsidePyPath c) safe then "@PythonModule(\"" ++ outsidePyPath c ++ "\")\n" else "")
-    ++ "package " ++ convertName (outsidePyPath c) safe ++ "\n"
+    ++ "package " ++ escapePath (convertName (outsidePyPath c) safe) ++ "\n"
 
 /-- a closed form of `createOutsidePackageClass` -/
 theorem createOutsidePackageClass_eq (safe : Bool) (c : String) (created existing : List String) :
@@ -1258,7 +1258,7 @@ theorem typeStr_keeps' (s0 : St) (env : Env) : (t : AType) → KeepsAt s0 (typeS
     have h1 := typeStrs_keeps s0 env ts
     refine ⟨?_, fun ts h => by cases h⟩
     unfold typeStr
-    keeps []
+    keeps [addToImports_keeps]
   | .unknown => by
     refine ⟨?_, fun ts h => by cases h⟩
     unfold typeStr
@@ -1660,10 +1660,157 @@ theorem append_cons_inj_of_not_mem {c : Char} : ∀ {a b r r' : List Char}, a ++
     simp only [List.mem_cons, not_or] at ha hb
     rw [h.1, append_cons_inj_of_not_mem h.2 ha.2 hb.2]
 
+/-! ### keyword escaping of dotted paths (`escapePath`) and reading it back -/
+
+/-- joining the pieces of a split with the separator gives the text back (character lists) -/
+theorem pf_joinL_splitOnChar (sep : Char) (cs : List Char) : joinL [sep] (splitOnChar sep cs) = cs := by
+  rw [← flatMap_replace_eq_joinL sep sep cs]
+  induction cs with
+  | nil => rfl
+  | cons c cs ih =>
+    rw [List.flatMap_cons, ih]
+    by_cases hc : c = sep <;> simp [hc]
+
+/-- `sep.join(s.split(sep)) == s` -/
+theorem pf_joinWith_pySplit (s : String) (sep : Char) (sepS : String) (hs : sepS.toList = [sep]) :
+    joinWith sepS (pySplit s sep) = s := by
+  rw [← String.toList_inj, toList_joinWith, hs]
+  unfold pySplit
+  rw [List.map_map]
+  have : (String.toList ∘ String.ofList) = (id : List Char → List Char) := by
+    funext x; simp [String.toList_ofList]
+  rw [this, List.map_id, pf_joinL_splitOnChar]
+
+theorem pf_mem_joinL (sep : List Char) (x : Char) : ∀ (parts : List (List Char)), x ∈ joinL sep parts →
+    x ∈ sep ∨ ∃ q ∈ parts, x ∈ q
+  | [], h => by simp [joinL] at h
+  | [a], h => Or.inr ⟨a, by simp, h⟩
+  | a :: b :: l, h => by
+    have e : joinL sep (a :: b :: l) = a ++ sep ++ joinL sep (b :: l) := rfl
+    rw [e, List.mem_append, List.mem_append] at h
+    rcases h with (h | h) | h
+    · exact Or.inr ⟨a, by simp, h⟩
+    · exact Or.inl h
+    · rcases pf_mem_joinL sep x (b :: l) h with h' | ⟨q, hq, hx⟩
+      · exact Or.inl h'
+      · exact Or.inr ⟨q, List.mem_cons_of_mem _ hq, hx⟩
+
+/-- a keyword is wrapped in back-quotes, any other name is left alone -/
+theorem pf_escapeKeyword_toList (s : String) :
+    (s ∉ Generated.keywords ∧ escapeKeyword s = s)
+    ∨ (s ∈ Generated.keywords ∧ (escapeKeyword s).toList = '`' :: (s.toList ++ ['`'])) := by
+  unfold escapeKeyword
+  by_cases h : Generated.keywords.contains s = true
+  · right
+    rw [if_pos h]
+    refine ⟨List.contains_iff_mem.1 h, ?_⟩
+    have e : Generated.keywordWrap.1.toList = ['`'] ∧ Generated.keywordWrap.2.toList = ['`'] := by decide
+    rw [String.toList_append, String.toList_append, e.1, e.2]
+    rfl
+  · left
+    rw [if_neg h]
+    exact ⟨fun hm => h (List.contains_iff_mem.2 hm), rfl⟩
+
+theorem pf_escapeKeyword_of_not_keyword (s : String) (h : s ∉ Generated.keywords) : escapeKeyword s = s := by
+  rcases pf_escapeKeyword_toList s with ⟨_, e⟩ | ⟨hm, _⟩
+  · exact e
+  · exact absurd hm h
+
+/-- the characters of an escaped name: those of the name, and the back-quote -/
+theorem pf_mem_escapeKeyword (s : String) (x : Char) (hx : x ∈ (escapeKeyword s).toList) : x ∈ s.toList ∨ x = '`' := by
+  rcases pf_escapeKeyword_toList s with ⟨_, e⟩ | ⟨_, e⟩
+  · rw [e] at hx; exact Or.inl hx
+  · rw [e] at hx
+    simp only [List.mem_cons, List.mem_append, List.not_mem_nil, or_false] at hx
+    rcases hx with h | h | h
+    · exact Or.inr h
+    · exact Or.inl h
+    · exact Or.inr h
+
+/-- the dot-segments of an escaped path are the escaped dot-segments of the path -/
+theorem pf_splitDot_escapePath (p : String) : splitDot (escapePath p) = (splitDot p).map escapeKeyword := by
+  unfold escapePath splitDot
+  apply pySplit_joinWith '.' "." (by decide) _ (by simpa using pySplit_ne_nil '.' p)
+  intro q hq hx
+  rw [List.mem_map] at hq
+  obtain ⟨s, hs, rfl⟩ := hq
+  rcases pf_mem_escapeKeyword s '.' hx with h | h
+  · exact sep_not_mem_pySplit '.' p s hs h
+  · exact absurd h (by decide)
+
+/-- the characters of an escaped path: those of the path, the back-quote (and the dot) -/
+theorem pf_mem_escapePath (p : String) (x : Char) (hx : x ∈ (escapePath p).toList) :
+    x ∈ p.toList ∨ x = '`' ∨ x = '.' := by
+  unfold escapePath at hx
+  rw [toList_joinWith] at hx
+  rcases pf_mem_joinL _ x _ hx with h | ⟨q, hq, hxq⟩
+  · right; right
+    have e : (".":String).toList = ['.'] := by decide
+    rw [e] at h
+    simpa using h
+  · rw [List.map_map, List.mem_map] at hq
+    obtain ⟨s, hs, rfl⟩ := hq
+    rcases pf_mem_escapeKeyword s x hxq with h | h
+    · exact Or.inl (mem_of_mem_pySplit '.' p s hs x h)
+    · exact Or.inr (Or.inl h)
+
+/-- a path none of whose dot-segments is a keyword is written verbatim -/
+theorem pf_escapePath_eq_self (p : String) (h : ∀ s ∈ splitDot p, s ∉ Generated.keywords) : escapePath p = p := by
+  unfold escapePath
+  have : (pySplit p '.').map escapeKeyword = pySplit p '.' := by
+    conv => rhs; rw [← List.map_id (pySplit p '.')]
+    apply List.map_congr_left
+    intro s hs
+    exact pf_escapeKeyword_of_not_keyword s (h s hs)
+  rw [this, pf_joinWith_pySplit p '.' "." (by decide)]
+
+/-- remove the back-quotes of one segment (what the Safe-DS lexer does with `` `id` ``) -/
+def pf_unescapeSegment (s : String) : String := String.ofList (s.toList.filter (· != '`'))
+
+/-- read a (possibly escaped) package path back: strip the back-quotes of every dot-segment -/
+def pf_unescapePath (p : String) : String := joinWith "." ((splitDot p).map pf_unescapeSegment)
+
+theorem pf_unescapeSegment_of_no_backquote (s : String) (h : '`' ∉ s.toList) : pf_unescapeSegment s = s := by
+  unfold pf_unescapeSegment
+  rw [← String.toList_inj, String.toList_ofList, List.filter_eq_self]
+  intro x hx
+  have : x ≠ '`' := fun e => h (e ▸ hx)
+  simpa using this
+
+theorem pf_unescapeSegment_escapeKeyword (s : String) (h : '`' ∉ s.toList) : pf_unescapeSegment (escapeKeyword s) = s := by
+  rcases pf_escapeKeyword_toList s with ⟨_, e⟩ | ⟨_, e⟩
+  · rw [e]; exact pf_unescapeSegment_of_no_backquote s h
+  · unfold pf_unescapeSegment
+    rw [e, ← String.toList_inj, String.toList_ofList]
+    have hf : s.toList.filter (· != '`') = s.toList := by
+      rw [List.filter_eq_self]
+      intro x hx
+      have : x ≠ '`' := fun e => h (e ▸ hx)
+      simpa using this
+    simp [List.filter_append, hf]
+
+/-- the package path is recoverable from its escaped form -/
+theorem pf_unescapePath_escapePath (p : String) (h : '`' ∉ p.toList) : pf_unescapePath (escapePath p) = p := by
+  unfold pf_unescapePath
+  rw [pf_splitDot_escapePath, List.map_map]
+  have : (splitDot p).map (pf_unescapeSegment ∘ escapeKeyword) = splitDot p := by
+    conv => rhs; rw [← List.map_id (splitDot p)]
+    apply List.map_congr_left
+    intro s hs
+    exact pf_unescapeSegment_escapeKeyword s (fun hx => h (mem_of_mem_pySplit '.' p s hs '`' hx))
+  rw [this]
+  exact pf_joinWith_pySplit p '.' "." (by decide)
+
+theorem pf_escapePath_inj (p₁ p₂ : String) (h1 : '`' ∉ p₁.toList) (h2 : '`' ∉ p₂.toList)
+    (h : escapePath p₁ = escapePath p₂) : p₁ = p₂ := by
+  rw [← pf_unescapePath_escapePath p₁ h1, ← pf_unescapePath_escapePath p₂ h2, h]
+
+
 /-- the announced Python module path can be read back from a stub text: two texts that start with the headers
     of `p₁` and `p₂` announce the same path -/
 theorem packageHeader_inj (env : Env) (p₁ p₂ rest₁ rest₂ : String)
     (h1 : '"' ∉ p₁.toList ∧ '\n' ∉ p₁.toList) (h2 : '"' ∉ p₂.toList ∧ '\n' ∉ p₂.toList)
+    (hb1 : '`' ∉ p₁.toList) (hb2 : '`' ∉ p₂.toList)
     (h : packageHeader env p₁ ++ rest₁ = packageHeader env p₂ ++ rest₂) : p₁ = p₂ := by
   have h := congrArg String.toList h
   unfold packageHeader at h
@@ -1674,7 +1821,15 @@ theorem packageHeader_inj (env : Env) (p₁ p₂ rest₁ rest₂ : String)
       decide
     rw [e.1, e.2.1, e.2.2] at h
     simp only [List.nil_append, List.cons_append, List.cons.injEq, true_and, List.append_assoc] at h
-    exact append_cons_inj_of_not_mem h h1.2 h2.2
+    have hn : ∀ p : String, '\n' ∉ p.toList → '\n' ∉ (escapePath p).toList := by
+      intro p hp hx
+      rcases pf_mem_escapePath p '\n' hx with h' | h' | h'
+      · exact hp h'
+      · exact absurd h' (by decide)
+      · exact absurd h' (by decide)
+    have he := append_cons_inj_of_not_mem h (hn p₁ h1.2) (hn p₂ h2.2)
+    rw [String.toList_inj] at he ⊢
+    exact pf_escapePath_inj p₁ p₂ hb1 hb2 he
   · simp only [bne_iff_ne, ne_eq, ← c1, c2, not_true_eq_false, not_false_eq_true, if_false, if_true,
       String.toList_append] at h
     have e : ("" : String).toList = [] ∧ "package ".toList = ['p','a','c','k','a','g','e',' ']
